@@ -86,6 +86,8 @@ func discover() {
 func init() {
 	defer discover()
 	reg(check{id: "C18", bin: plainCmds, engine: "enum", quickShards: 1, thoroughShards: 16})
+	reg(check{id: "C45", bin: plainRoot, engine: "enum", quickShards: 1, thoroughShards: 16})
+	reg(check{id: "C44", bin: plainRoot, engine: "enum", quickShards: 2, thoroughShards: 16})
 	reg(check{id: "C02", bin: simRoot, engine: "gosim", quickShards: 8, thoroughShards: 16, gomaxprocs: 1})
 	reg(check{id: "C24", bin: simRoot, engine: "gosim", quickShards: 8, thoroughShards: 16, gomaxprocs: 1})
 }
